@@ -137,6 +137,14 @@ def run(ctx):
         traces.append(tp)
         argvs.append([drv, "--out", tp, "--scratch", os.path.join(ctx.scratch, "st%d" % k), "--script", sp,
                       "--random", str(nrand), "--salt", str(k)] + (["--custom"] if k == 0 else []))
+    # Proposal026-on configuration (jump table rebuilt by doProposal026, all gas x30): the write attempts in static
+    # context and random trees once more
+    psp = os.path.join(ctx.scratch, "script_p026.json")
+    json.dump(attempts, open(psp, "w"))
+    ptrace = os.path.join(ctx.scratch, "trace_p026.ndjson")
+    argvs.append([drv, "--out", ptrace, "--scratch", os.path.join(ctx.scratch, "stp"), "--script", psp, "--p026",
+                  "--random", str(100 if quick else 1500), "--salt", "77"])
+    traces.append(ptrace)
     argvs.append([drv, "--receipts", rsp, "--out", rtrace, "--scratch", os.path.join(ctx.scratch, "rst")])
     outs = ctx.run_parallel(argvs, timeout=1500)
     traces.append(rtrace)
@@ -210,5 +218,5 @@ def run(ctx):
         "CREATE / CREATE2 increment the creator's nonce before the frame's snapshot is taken; the creator's nonce is therefore not compared for failed creations",
         "the zero-value touch of STATICCALL happens before the frame is entered and is therefore outside the static frame",
         "the log list the outermost call returns (it goes into the receipt's message, which is not hashed) is reported as a note, not judged",
-        "jump table of the dev configuration at height 100 with Proposal026 inactive (fixed process-global configuration)",
+        "two fixed process-global jump-table configurations at height 100: Proposal026 inactive (all scenarios) and Proposal026 active (x30 gas; the write attempts in static context and random trees)",
     ])
